@@ -89,10 +89,12 @@ def fault_programs(rng, w, n):
             out.append((src2, [str(rng.choice([0, 1, -1, -2, -3, -8, -9, 5]))], 'length_call_' + el))
     # nonlocal preempt
     for body in ('!baba(); !is_defeat();', '!baba();', '!baba(); !truth_is_defeat(x > 2);', 'if (x > 1) { !baba(); } !truth_is_defeat(x > 2);'):
-        src = ('empty !baba() { write("b"); if (false) { preempt {} } }\n'
-               'empty @is_you(int x) { write("pre "); try { %s } undo { write("U"); } write(" post"); }' % body)
-        for v in (0, 1, 2, 3, 5):
-            out.append((src, [str(v)], 'nonlocal_preempt'))
+        for hide in ('if (false) { preempt {} }', 'while (false) { preempt {} }', 'for (;false;) { preempt {} }',
+                     'for (int k = 0; k < 0; k += 1) { { preempt { write("p"); } } }', '{ return; preempt {} }'):
+            src = ('empty !baba() { write("b"); %s }\n'
+                   'empty @is_you(int x) { write("pre "); try { %s } undo { write("U"); } write(" post"); }' % (hide, body))
+            for v in (0, 1, 2, 3, 5):
+                out.append((src, [str(v)], 'nonlocal_preempt'))
     rng.shuffle(out)
     return out[:n] if n < len(out) else out
 
